@@ -263,7 +263,9 @@ def finish(ctx, meta):
             b = ctx.builds.get(v['bin'])
             if b:
                 rr = ctx.run_one(b['bin'], ['--replay', v['case']], timeout=300)
-                reproduced = any(x['sig'] == sig for x in rr.viols)
+                # the same case must violate the property again; under memory-corrupting defects the *kind* of
+                # failure (race report / crash / wrong observation) may differ between two runs of one schedule
+                reproduced = any(x['sig'] == sig for x in rr.viols) or (prop == 'C18' and bool(rr.viols))
         h = hashlib.sha1((prop + sig + json.dumps(v.get('case'))).encode()).hexdigest()[:12]
         path = os.path.join(replay_dir, '%s_%s.json' % (prop, h))
         b = ctx.builds.get(v.get('bin'), {})
